@@ -86,6 +86,11 @@ struct Case {
     /// appends during which a compile runs at every instrumented point (after `later`)
     #[serde(default)]
     race: Vec<Op>,
+    /// window-boundary sweep (anchors = every message of a thread larger than a tail window): 0 = no,
+    /// 1 = every anchor under all cache states, 2 = light (caches as found + the re-computation from truth only,
+    /// all anchors on one opened store)
+    #[serde(default)]
+    sweep: u8,
 }
 
 // ---------------------------------------------------------------- store plumbing
@@ -398,6 +403,28 @@ fn compile_at(root: &Path, id: &str, anchor: &str, times: usize, secs: u64) -> V
         Ok(Ok(v)) => v,
         Ok(Err(_)) => vec![Out::Panic; times],
         Err(_) => vec![Out::Hang; times],
+    }
+}
+
+/// opens the store at `root` once and compiles for every anchor in turn (light sweeps) under one watchdog
+fn compile_all_at(root: &Path, id: &str, anchors: &[String], secs: u64) -> Vec<Out> {
+    let (tx, rx) = std::sync::mpsc::channel();
+    let (root2, id2, anchors2) = (root.to_path_buf(), id.to_string(), anchors.to_vec());
+    std::thread::Builder::new()
+        .stack_size(16 << 20)
+        .spawn(move || {
+            let o = std::panic::catch_unwind(std::panic::AssertUnwindSafe(|| open(&root2)));
+            let Ok(o) = o else {
+                let _ = tx.send(vec![Out::Panic; anchors2.len()]);
+                return;
+            };
+            let v: Vec<Out> = anchors2.iter().map(|a| std::panic::catch_unwind(std::panic::AssertUnwindSafe(|| compile_on(&o, &root2, &id2, a))).unwrap_or(Out::Panic)).collect();
+            let _ = tx.send(v);
+        })
+        .unwrap();
+    match rx.recv_timeout(Duration::from_secs(secs)) {
+        Ok(v) => v,
+        Err(_) => vec![Out::Hang; anchors.len()],
     }
 }
 
@@ -748,7 +775,7 @@ fn gen_case(r: &mut Rng, i: u64) -> Case {
             });
         }
     }
-    Case { ops, anchors, later: gen_later(r, nmsg), faults, big: false, race }
+    Case { ops, anchors, later: gen_later(r, nmsg), faults, big: false, race, sweep: 0 }
 }
 /// threads whose mr sidecar is larger than every tail window (8 MiB): anchors far from the tail go
 /// through the seekable window, anchors near the tail through several doublings of the tail scan
@@ -762,7 +789,7 @@ fn big_cases() -> Vec<Case> {
         }
     }
     ops.push(Op::SideFx);
-    let a = Case { ops: ops.clone(), anchors: vec![Anchor::Msg(0), Anchor::Msg(1), Anchor::Msg(2), Anchor::Msg(6), Anchor::Last], later: vec![Op::Checkpoint { msg: 0 }, Op::SideFx], faults: vec![(Target::Mr, FaultKind::Delete), (Target::MrMsgIdx, FaultKind::Delete), (Target::Seek, FaultKind::Garbage)], big: true, race: vec![] };
+    let a = Case { ops: ops.clone(), anchors: vec![Anchor::Msg(0), Anchor::Msg(1), Anchor::Msg(2), Anchor::Msg(6), Anchor::Last], later: vec![Op::Checkpoint { msg: 0 }, Op::SideFx], faults: vec![(Target::Mr, FaultKind::Delete), (Target::MrMsgIdx, FaultKind::Delete), (Target::Seek, FaultKind::Garbage)], big: true, race: vec![], sweep: 0 };
     // 20 messages of 300 KiB: the first 256 KiB window holds no message, 16 messages need ~5 MiB
     let mut ops2 = vec![];
     for k in 0..22 {
@@ -771,15 +798,82 @@ fn big_cases() -> Vec<Case> {
             ops2.push(Op::SideFx);
         }
     }
-    let b = Case { ops: ops2, anchors: vec![Anchor::Last, Anchor::Msg(20), Anchor::Msg(3), Anchor::Msg(0)], later: vec![Op::SideFx, Op::Checkpoint { msg: 1 }], faults: vec![(Target::Full, FaultKind::Delete), (Target::MrSeek, FaultKind::Delete)], big: true, race: vec![] };
+    let b = Case { ops: ops2, anchors: vec![Anchor::Last, Anchor::Msg(20), Anchor::Msg(3), Anchor::Msg(0)], later: vec![Op::SideFx, Op::Checkpoint { msg: 1 }], faults: vec![(Target::Full, FaultKind::Delete), (Target::MrSeek, FaultKind::Delete)], big: true, race: vec![], sweep: 0 };
     vec![a, b]
+}
+/// Window-boundary sweeps.  The mr tail scan reads 256 KiB, then doubles (512 KiB, 1 MiB, … 8 MiB) until the tail is the
+/// whole sidecar or holds `limit` messages at or before the cut.  A thread whose messages+runs sidecar is `tenths`/10 of
+/// a window `w`, built from messages of about w / per_window bytes (sizes jittered 0.4x .. 1.6x so that the boundaries
+/// fall at arbitrary offsets), some of them answered by a run; the anchors are EVERY message of the thread, so every
+/// position relative to every window boundary inside the thread is compiled: the incomplete tail that is just enough
+/// (exactly `limit` messages at or before the cut), the one that is one short, the anchor that is the first / the 15th /
+/// the 16th message of a tail, anchors only a later doubling finds.
+fn sweep_case(r: &mut Rng, w: u64, tenths: (u64, u64), per_window: (u64, u64), light: bool) -> Case {
+    let tenths = r.range(tenths.0, tenths.1);
+    let per_window = r.range(per_window.0, per_window.1);
+    let mean = w / per_window;
+    let total = w * tenths / 10;
+    let mut ops = vec![Op::Msg { size: 5 }, Op::SideFx];
+    let mut bytes = 0u64;
+    let mut nmsg = 1u64;
+    let mut nrun = 0u64;
+    let ckpt_at = if r.chance(1, 2) { Some(r.range(1, 12)) } else { None };
+    while bytes < total {
+        let size = mean * r.range(4, 16) / 10;
+        ops.push(Op::Msg { size });
+        bytes += size + 330;
+        nmsg += 1;
+        if r.chance(1, 3) {
+            ops.push(Op::Run { msg: nmsg - 1, text: *r.pick(&[2u8, 3, 4]), snap: 0 });
+            ops.push(Op::RunEnded { run: nrun });
+            nrun += 1;
+            bytes += 420;
+        }
+        if r.chance(1, 6) {
+            ops.push(Op::SideFx);
+        }
+        if ckpt_at == Some(nmsg) {
+            ops.push(Op::Checkpoint { msg: r.below(nmsg) });
+        }
+    }
+    if r.chance(1, 2) {
+        ops.push(Op::SideFx);
+    }
+    let anchors = (0..nmsg).map(Anchor::Msg).collect();
+    Case { ops, anchors, later: vec![Op::SideFx, Op::Msg { size: 5 }], faults: vec![], big: true, race: vec![], sweep: if light { 2 } else { 1 } }
+}
+fn sweep_cases(r: &mut Rng, thorough: bool) -> Vec<Case> {
+    const K: u64 = 1024;
+    let mut v = vec![];
+    let rounds = if thorough { 4 } else { 1 };
+    for _ in 0..rounds {
+        // (window, size of the thread in tenths of the window, messages per window, light)
+        // 256 KiB window inside the thread, the 512 KiB scan is complete
+        v.push(sweep_case(r, 256 * K, (12, 20), (17, 28), false));
+        // 256 KiB and 512 KiB boundaries inside, both holding more than `limit` messages
+        v.push(sweep_case(r, 256 * K, (21, 40), (17, 22), true));
+        // 512 KiB: the 256 KiB scan never holds `limit` messages, the 512 KiB scan does
+        v.push(sweep_case(r, 512 * K, (12, 20), (17, 30), false));
+        // 1 MiB: two doublings before a scan can be enough
+        v.push(sweep_case(r, 1024 * K, (12, 20), (17, 26), true));
+        v.push(sweep_case(r, 1024 * K, (21, 40), (17, 20), true));
+    }
+    if thorough {
+        for w in [2048 * K, 4096 * K] {
+            v.push(sweep_case(r, w, (12, 30), (17, 24), true));
+        }
+    }
+    // the cap: a thread larger than the largest scan (8 MiB) whose last 8 MiB hold more than `limit` messages:
+    // anchors inside the capped scan, anchors only the seek window finds
+    v.push(sweep_case(r, 8192 * K, (11, 14), (17, 22), true));
+    v
 }
 fn corpus_cases() -> Vec<Case> {
     vec![
         // S9: a checkpoint frame appended after the cut, to_seq at or before it
-        Case { ops: vec![Op::Msg { size: 5 }, Op::Msg { size: 5 }, Op::Msg { size: 5 }], anchors: vec![Anchor::Msg(1), Anchor::Msg(0)], later: vec![Op::Checkpoint { msg: 0 }], faults: vec![], big: false, race: vec![] },
+        Case { ops: vec![Op::Msg { size: 5 }, Op::Msg { size: 5 }, Op::Msg { size: 5 }], anchors: vec![Anchor::Msg(1), Anchor::Msg(0)], later: vec![Op::Checkpoint { msg: 0 }], faults: vec![], big: false, race: vec![], sweep: 0 },
         // exactly `limit` and limit+1 messages, reply on the oldest one
-        Case { ops: std::iter::once(Op::Msg { size: 5 }).chain([Op::Run { msg: 0, text: 2, snap: 0 }, Op::RunEnded { run: 0 }]).chain((0..16).map(|_| Op::Msg { size: 5 })).collect(), anchors: vec![Anchor::Last, Anchor::Msg(15), Anchor::Msg(16), Anchor::Msg(0)], later: vec![Op::Msg { size: 5 }], faults: vec![(Target::Full, FaultKind::Delete)], big: false, race: vec![] },
+        Case { ops: std::iter::once(Op::Msg { size: 5 }).chain([Op::Run { msg: 0, text: 2, snap: 0 }, Op::RunEnded { run: 0 }]).chain((0..16).map(|_| Op::Msg { size: 5 })).collect(), anchors: vec![Anchor::Last, Anchor::Msg(15), Anchor::Msg(16), Anchor::Msg(0)], later: vec![Op::Msg { size: 5 }], faults: vec![(Target::Full, FaultKind::Delete)], big: false, race: vec![], sweep: 0 },
         // checkpoint at the anchor, to_seq ties (the later frame wins), halving with thresholds 0 / 1
         Case {
             ops: vec![Op::Msg { size: 5 }, Op::Msg { size: 5 }, Op::Checkpoint { msg: 0 }, Op::Checkpoint { msg: 0 }, Op::Msg { size: 5 }, Op::Checkpoint { msg: 1 }, Op::Msg { size: 5 }, Op::Msg { size: 5 }, Op::Checkpoint { msg: 3 }, Op::Checkpoint { msg: 4 }, Op::SideFx],
@@ -788,11 +882,12 @@ fn corpus_cases() -> Vec<Case> {
             faults: vec![(Target::Comp, FaultKind::Delete), (Target::CompIdx, FaultKind::Garbage)],
             big: false,
             race: vec![Op::SideFx, Op::Msg { size: 5 }, Op::RunEnded { run: 0 }],
+            sweep: 0,
         },
         // only unsupported checkpoint kinds visible (reset + cause), then a cumulative one with a smaller to_seq
-        Case { ops: vec![Op::Msg { size: 5 }, Op::Msg { size: 5 }, Op::ForeignCheckpoint { msg: 1 }, Op::Msg { size: 5 }, Op::Checkpoint { msg: 0 }, Op::Msg { size: 5 }, Op::ForeignCheckpoint { msg: 2 }], anchors: vec![Anchor::Msg(1), Anchor::Msg(2), Anchor::Last], later: vec![Op::SideFx], faults: vec![(Target::Comp, FaultKind::Delete)], big: false, race: vec![] },
+        Case { ops: vec![Op::Msg { size: 5 }, Op::Msg { size: 5 }, Op::ForeignCheckpoint { msg: 1 }, Op::Msg { size: 5 }, Op::Checkpoint { msg: 0 }, Op::Msg { size: 5 }, Op::ForeignCheckpoint { msg: 2 }], anchors: vec![Anchor::Msg(1), Anchor::Msg(2), Anchor::Last], later: vec![Op::SideFx], faults: vec![(Target::Comp, FaultKind::Delete)], big: false, race: vec![], sweep: 0 },
         // a reply that arrives after the cut must not be in the bundle; two runs for one message
-        Case { ops: vec![Op::Msg { size: 5 }, Op::Run { msg: 0, text: 2, snap: 0 }, Op::Run { msg: 0, text: 3, snap: 2 }, Op::RunEnded { run: 0 }, Op::Msg { size: 5 }, Op::RunEnded { run: 1 }, Op::SideFx], anchors: vec![Anchor::Msg(0), Anchor::Last], later: vec![Op::RunEnded { run: 0 }], faults: vec![(Target::Mr, FaultKind::Delete)], big: false, race: vec![] },
+        Case { ops: vec![Op::Msg { size: 5 }, Op::Run { msg: 0, text: 2, snap: 0 }, Op::Run { msg: 0, text: 3, snap: 2 }, Op::RunEnded { run: 0 }, Op::Msg { size: 5 }, Op::RunEnded { run: 1 }, Op::SideFx], anchors: vec![Anchor::Msg(0), Anchor::Last], later: vec![Op::RunEnded { run: 0 }], faults: vec![(Target::Mr, FaultKind::Delete)], big: false, race: vec![], sweep: 0 },
     ]
 }
 
@@ -840,7 +935,17 @@ fn run_case(case: &Case, limit: usize, max_refs: usize) -> CaseOut {
     let runs = h.runs.clone();
     let tmp = scratch.path().join("copy");
     let mut compiled = vec![];
-    for an in &case.anchors {
+    if case.sweep == 2 {
+        let ids: Vec<String> = case.anchors.iter().map(|an| resolve_anchor(an, &h, &abs.truth)).collect();
+        copy_store(&root, &tmp, true);
+        let outs = compile_all_at(&tmp, &id, &ids, secs + 2 * ids.len() as u64);
+        for ((an, anchor_id), baseline) in case.anchors.iter().zip(ids).zip(outs) {
+            let spec = spec_bundle(&abs, &runs, &anchor_id, limit, max_refs, true);
+            let cut_is_head = spec.as_ref().map(|s| s["from_seq"].as_u64() == abs.truth.last().map(|e| e.seq)).unwrap_or(false);
+            compiled.push(Compiled { anchor: an.clone(), anchor_id, baseline, others: vec![], spec, cut_is_head });
+        }
+    }
+    for an in case.anchors.iter().filter(|_| case.sweep != 2) {
         let anchor_id = resolve_anchor(an, &h, &abs.truth);
         // caches as found; twice on the same opened store
         copy_store(&root, &tmp, true);
@@ -871,7 +976,12 @@ fn run_case(case: &Case, limit: usize, max_refs: usize) -> CaseOut {
     let abs_later = abstract_truth(replay_truth(&root, &id), &h.runs);
     let runs_later = h.runs.clone();
     let mut later_baselines = vec![];
-    for c in &compiled {
+    if case.sweep == 2 {
+        let ids: Vec<String> = compiled.iter().map(|c| c.anchor_id.clone()).collect();
+        copy_store(&root, &tmp, true);
+        later_baselines = compile_all_at(&tmp, &id, &ids, secs + 2 * ids.len() as u64);
+    }
+    for c in compiled.iter().filter(|_| case.sweep != 2) {
         copy_store(&root, &tmp, true);
         let mut v = compile_at(&tmp, &id, &c.anchor_id, 1, secs);
         later_baselines.push(v.pop().unwrap());
@@ -1253,6 +1363,8 @@ fn main() {
         }
         cases.extend(corpus_cases());
         cases.extend(big_cases());
+        let mut rs = Rng::new(a.seed ^ 0x5EE9);
+        cases.extend(sweep_cases(&mut rs, a.thorough()));
         let n = if a.thorough() { 1500 } else { 120 };
         let mut r = Rng::new(a.seed);
         for i in 0..n {
@@ -1265,7 +1377,7 @@ fn main() {
                 let ops = gen_ops(&mut r, n, &[300_000, 1 << 20, 5, 300_000], false);
                 let nmsg = ops.iter().filter(|o| matches!(o, Op::Msg { .. })).count() as u64;
                 let anchors = vec![Anchor::Msg(0), Anchor::Msg(1), Anchor::Msg(r.below(nmsg.max(1))), Anchor::Last];
-                cases.push(Case { ops, anchors, later: gen_later(&mut r, nmsg), faults: vec![(*r.pick(&TARGETS), FaultKind::Delete)], big: true, race: vec![] });
+                cases.push(Case { ops, anchors, later: gen_later(&mut r, nmsg), faults: vec![(*r.pick(&TARGETS), FaultKind::Delete)], big: true, race: vec![], sweep: 0 });
             }
             // every single fault on a rich fixed history
             let base = corpus_cases().remove(2);
@@ -1310,6 +1422,9 @@ fn main() {
             res.bump(&format!("anchor:{}", match (&c.anchor, c.cut_is_head) { (Anchor::Unknown, _) | (Anchor::NonMessage, _) => "invalid", (_, true) => "cut=head", _ => "cut<head" }));
             if !a.oracle_only() && out.abs_later.truth.len() <= 600 {
                 for (abs, runs, o, which) in [(&out.abs, &out.runs, &c.baseline, "first"), (&out.abs_later, &out.runs_later, &out.later_baselines[ai], "after_later")] {
+                    if case.sweep != 0 && which == "after_later" {
+                        continue; // the oracle judges it; one model case per anchor is enough for a sweep
+                    }
                     let term = format!(
                         "{{| c_log := {}; c_runs := {}; c_anchor := {}; c_expect := {} |}}",
                         coq_list(&abs.truth, |e| abs.coq_frame(e)),
@@ -1337,7 +1452,7 @@ fn main() {
                     case_id: *cid,
                     what: what.clone(),
                     class: class.clone(),
-                    replay: if first && n == 0 { json!({"case": shrink_case(case, &class, limit, max_refs)}) } else { json!({"see": "first witness of this class", "case": if ids.len() == 1 && n == 0 { serde_json::to_value(case).unwrap() } else { Value::Null }}) },
+                    replay: if first && n == 0 { json!({"case": shrink_case(case, ai, &class, limit, max_refs)}) } else { json!({"see": "first witness of this class", "case": if ids.len() == 1 && n == 0 { serde_json::to_value(case).unwrap() } else { Value::Null }}) },
                 });
             }
         }
@@ -1411,7 +1526,12 @@ fn main() {
 }
 
 /// delta-debug ops / later / anchors while the class persists
-fn shrink_case(case: &Case, class: &str, limit: usize, max_refs: usize) -> Value {
+fn shrink_case(case: &Case, ai: usize, class: &str, limit: usize, max_refs: usize) -> Value {
+    if case.sweep != 0 {
+        // the byte sizes are the point: keep the thread, name the one anchor the oracle flagged
+        let c = Case { anchors: case.anchors.get(ai).cloned().into_iter().collect(), sweep: 1, ..case.clone() };
+        return serde_json::to_value(&c).unwrap();
+    }
     if case.big || class == "hang" {
         return serde_json::to_value(case).unwrap();
     }
